@@ -9,7 +9,7 @@ CONSTANTS
   FromInput <- FromBoth
   ExplicitTargets = TRUE
   Refusals = TRUE
-  ZeroHeightRefused = FALSE
+  ZeroHeightRefused = TRUE
   AlignTarget = TRUE
   MaxLevel = 3
 INIT Init
